@@ -18,7 +18,7 @@ P = "C07"
 
 def _params_int(tier):
     # stripes over the magnitude: |v| < 2^(8k) ... keeps every job small; union = [-2^B, 2^B]
-    B = 72 if tier == "quick" else 264
+    B = 72 if tier == "quick" else 520
     step = 8 if tier == "quick" else 24
     out = []
     lo = 0
@@ -28,7 +28,7 @@ def _params_int(tier):
     return out
 
 
-@harness(P, params=_params_int, bounds="INTEGER/ENUMERATED value v with 2^lo_bits <= |v|+1 <= 2^hi_bits, stripes cover |v| <= 2^72 (quick) / 2^264 (thorough); "
+@harness(P, params=_params_int, bounds="INTEGER/ENUMERATED value v with 2^lo_bits <= |v|+1 <= 2^hi_bits, stripes cover |v| <= 2^72 (quick) / 2^520 (thorough); "
          "tag: default, or context-specific primitive [n] with n symbolic in [0,2^32)", outside="|v| beyond the stated range",
          must_reach=("int: encoding is minimal DER", "int: read back"))
 def int_roundtrip(c, lo_bits, hi_bits):
@@ -109,15 +109,16 @@ def _oid_params(tier):
     out = []
     for n in ([2, 3, 4] if tier == "quick" else [2, 3, 4, 5, 6, 8]):
         for a0 in (0, 1, 2):
-            out.append(dict(n=n, a0=a0))
+            # every arc forks over its base-128 length (10 classes below 2^64): keep the product of classes bounded
+            out.append(dict(n=n, a0=a0, bits=64 if n <= 4 else (21 if n == 5 else 14)))
     return out
 
 
 @harness(P, params=_oid_params, bounds="OIDs with 2..4 (quick) / 2..8 (thorough) arcs; first arc 0,1,2; second arc symbolic < 40 (any value < 2^32 when first "
-         "arc is 2); further arcs symbolic < 2^64", outside="more arcs; arcs >= 2^64",
+         "arc is 2); further arcs symbolic < 2^64 (2..4 arcs), < 2^21 (5 arcs), < 2^14 (6 and 8 arcs)", outside="more arcs; larger arcs",
          must_reach=("oid: encoding is minimal DER", "oid: read back"))
-def oid_roundtrip(c, n, a0):
-    arcs = [a0, c.int("a1", 0, 39 if a0 < 2 else (1 << 32) - 1)] + [c.int(f"a{i}", 0, (1 << 64) - 1) for i in range(2, n)]
+def oid_roundtrip(c, n, a0, bits):
+    arcs = [a0, c.int("a1", 0, 39 if a0 < 2 else (1 << min(32, bits)) - 1)] + [c.int(f"a{i}", 0, (1 << bits) - 1) for i in range(2, n)]
     s = V.SymStr.join(".", [V.SymStr.dec(a) for a in arcs]) if c.symbolic else ".".join(str(a) for a in arcs)
     enc = c.call(_asn1._pack_asn1_object_identifier, s)
     content = refs.der_oid_content(arcs)
